@@ -6,6 +6,7 @@ import (
 	"regexp"
 	"runtime/debug"
 	"strings"
+	"sync/atomic"
 	"testing"
 	"time"
 
@@ -115,11 +116,19 @@ func inputOf(l *harness.Live) string {
 	return l.Expr
 }
 
+// hangSeen: a call of this process did not come back. The goroutine it ran in is still
+// spinning; the report stands, and what follows (rapid's shrinking) gets a short margin so
+// that it ends soon instead of piling up more of them.
+var hangSeen atomic.Bool
+
 // checkCompileTotal is the C06 oracle for one input.
 func checkCompileTotal(s string, hasNS bool, ns map[string]string) (accepted bool, f *harness.Failure) {
 	limit := 20 * time.Second
 	if len(s) > 64<<10 {
 		limit = 120 * time.Second
+	}
+	if hangSeen.Load() {
+		limit = 2 * time.Second
 	}
 	try := func() (bool, time.Duration, *harness.Failure) {
 		t0 := time.Now()
@@ -155,8 +164,16 @@ func checkCompileTotal(s string, hasNS bool, ns map[string]string) (accepted boo
 			_ = e.String() // usable: must not panic (what it returns is not part of C06)
 			// usable: evaluating it on a small document may raise the package's deliberate
 			// error, it may not die of a nil query or an index the builder left behind
-			if pi := useOnce(e); pi != nil {
-				return true, dt, harness.Failf("a usable expression", pi.String(), "Compile accepted the input, and the expression it returned aborts with a Go runtime error as soon as it is used")
+			used := make(chan *harness.PanicInfo, 1)
+			go func() { used <- useOnce(e) }()
+			select {
+			case pi := <-used:
+				if pi != nil {
+					return true, dt, harness.Failf("a usable expression", pi.String(), "Compile accepted the input, and the expression it returned aborts with a Go runtime error as soon as it is used")
+				}
+			case <-time.After(limit + limit/2):
+				hangSeen.Store(true)
+				return true, dt, harness.Failf("a usable expression", fmt.Sprintf("no answer after %v", limit+limit/2), "Compile accepted the input, and the expression it returned does not come back from its first use on a four-element document (the navigator's operation budget was not even reached: it spins without touching the document)")
 			}
 		}
 		return e != nil, dt, nil
@@ -169,6 +186,7 @@ func checkCompileTotal(s string, hasNS bool, ns map[string]string) (accepted boo
 		// machine load must not raise an alarm: once more, alone
 		_, dt2, _ := try()
 		if dt2 > limit {
+			hangSeen.Store(true)
 			return acc, harness.Failf("Compile returns promptly", fmt.Sprintf("%v then %v for %d bytes", dt, dt2, len(s)), "Compile did not terminate within the margin")
 		}
 	}
